@@ -884,6 +884,10 @@ class Interp:
                 else:
                     parts.append(self.eval(v.value, env, module))
             return self.lib.str_concat(parts, formatted=True)
+        if T is ast.ListComp and len(e.generators) == 1:
+            special = self._special_listcomp(e, env, module)
+            if special is not NOTFOUND:
+                return special
         if T in (ast.ListComp, ast.GeneratorExp, ast.SetComp):
             out = []
             self.comprehension(e.generators, 0, env, module, lambda env2: out.append(self.eval(e.elt, env2, module)))
@@ -902,6 +906,23 @@ class Interp:
             env[e.target.id] = v
             return v
         raise Unsupported(f'expression {T.__name__}')
+
+    def _special_listcomp(self, e, env, module):
+        """[x for x in L if x != c] over an abstract label list (filter view)"""
+        g = e.generators[0]
+        if not (isinstance(g.target, ast.Name) and isinstance(e.elt, ast.Name) and e.elt.id == g.target.id and len(g.ifs) == 1):
+            return NOTFOUND
+        c = g.ifs[0]
+        if not (isinstance(c, ast.Compare) and len(c.ops) == 1 and isinstance(c.ops[0], ast.NotEq) and isinstance(c.left, ast.Name) and c.left.id == g.target.id):
+            return NOTFOUND
+        if any(isinstance(n, ast.Name) and n.id == g.target.id for n in ast.walk(c.comparators[0])):
+            return NOTFOUND
+        src = self.eval(g.iter, env, module)
+        if not hasattr(src, 'm_listcomp_filter_neq'):
+            if isinstance(src, Model):
+                raise Unsupported('comprehension over ' + type(src).__name__)
+            return NOTFOUND
+        return src.m_listcomp_filter_neq(self, self.eval(c.comparators[0], env, module))
 
     def comprehension(self, gens, i, env, module, emit):
         if i == len(gens):
